@@ -10,7 +10,7 @@ sys.path.insert(0, os.path.dirname(__file__))
 import extract  # noqa: E402
 
 VERIF = os.path.dirname(os.path.dirname(os.path.abspath(__file__)))
-VDIR = os.path.join(VERIF, 'contracts', 'verus')
+VDIR = os.environ.get('VERIF_VDIR') or os.path.join(VERIF, 'contracts', 'verus')   # override: try an overlay in a private copy
 
 CANARY = '''
 verus! {
